@@ -1,0 +1,41 @@
+"""Verification trace hooks.
+
+Inactive unless the environment variable ``GLOTARAN_VERIF_TRACE`` names a file; then every
+hook appends one JSON line (event name, per-process sequence number, cheap scalar state).
+This module must not import anything from glotaran.
+"""
+
+from __future__ import annotations
+
+import json
+import os
+
+_PATH = os.environ.get("GLOTARAN_VERIF_TRACE")
+ENABLED = bool(_PATH)
+_seq = 0
+
+
+def emit(event: str, **fields) -> None:
+    """Append one event to the trace file."""
+    global _seq
+    if not ENABLED:
+        return
+    _seq += 1
+    record = {"seq": _seq, "pid": os.getpid(), "ev": event}
+    record.update(fields)
+    with open(_PATH, "a") as trace_file:  # type:ignore[arg-type]
+        trace_file.write(json.dumps(record, default=str) + "\n")
+
+
+def registry_projection(plugin_registry) -> dict:
+    """Project a plugin registry to ``key -> [full plugin name, format]``."""
+    projection = {}
+    for key, plugin in plugin_registry.items():
+        if isinstance(plugin, type):
+            projection[key] = [f"{plugin.__module__}.{plugin.__name__}", ""]
+        else:
+            projection[key] = [
+                f"{plugin.__module__}.{type(plugin).__name__}",
+                str(getattr(plugin, "format", "")),
+            ]
+    return projection
